@@ -142,11 +142,14 @@ pub fn run_interleaving(prefix: &[usize], bodies: Vec<Box<dyn FnOnce() + Send>>)
             let sched = sched.clone();
             std::thread::spawn(move || {
                 ME.with(|m| *m.borrow_mut() = Some((sched.clone(), i)));
+                // the watch-channel points of the vendored tokio are scheduling points too
+                tokio::verif_sched::install_thread_hook(Box::new(|| global_hook(Event::Point)));
                 let r = crate::core::catch(std::panic::AssertUnwindSafe(|| {
                     // park before doing anything: the first step is a choice too
                     global_hook(Event::Point);
                     b();
                 }));
+                tokio::verif_sched::uninstall_thread_hook();
                 ME.with(|m| *m.borrow_mut() = None);
                 sched.finished(i);
                 r.err()
@@ -212,6 +215,20 @@ where
         prefix = taken;
         if runs >= max_runs {
             return (runs, false, None);
+        }
+    }
+}
+
+/// Drives a future on the calling thread without ever blocking in the operating system: a
+/// `Pending` poll (e.g. an async mutex held by a thread that is parked at a scheduling point) is
+/// reported as "cannot continue before another thread has made a step".
+pub fn block_on_visible<F: std::future::Future>(f: F) -> F::Output {
+    let mut f = std::pin::pin!(f);
+    let mut cx = std::task::Context::from_waker(std::task::Waker::noop());
+    loop {
+        match f.as_mut().poll(&mut cx) {
+            std::task::Poll::Ready(v) => return v,
+            std::task::Poll::Pending => wait_point(),
         }
     }
 }
